@@ -38,13 +38,17 @@ def apply(edit):
     open(path, 'w').write(s)
 
 
-def run_check(prop):
-    env = dict(os.environ, LM_REPO=SCRATCH, LM_NO_EVIDENCE='1')
-    r = subprocess.run([os.path.join(VERIF, 'check'), prop], env=env, capture_output=True, text=True, cwd=VERIF)
+def run_check(prop, tier='quick'):
+    env = dict(os.environ, LM_REPO=SCRATCH, LM_NO_EVIDENCE='1', LM_NO_SENSITIVITY='1')
+    r = subprocess.run([os.path.join(VERIF, 'check'), prop, '--tier', tier], env=env, capture_output=True, text=True, cwd=VERIF)
     return r.returncode, r.stdout + r.stderr
 
 
 def main():
+    # one battery at a time: concurrent runs would share the scratch copy and overwrite each other's mutated files
+    import fcntl
+    lock = open('/var/tmp/lm-selftest.lock', 'w')
+    fcntl.flock(lock, fcntl.LOCK_EX)
     ap = argparse.ArgumentParser()
     ap.add_argument('-k', default='')
     ap.add_argument('--benign', action='store_true')
@@ -64,7 +68,7 @@ def main():
         t0 = time.time()
         props = mt['prop'] if isinstance(mt['prop'], list) else [mt['prop']]
         for prop in props:
-            rc, out = run_check(prop)
+            rc, out = run_check(prop, mt.get('tier', 'quick'))
             fired = rc == 1 and 'VIOLATION' in out
             broken = 'reason=extract-failed' in out or 'reason=checker-crashed' in out
             if a.benign:
